@@ -46,7 +46,7 @@ func consFuncs(x *ExecCtx) []*ssa.Function {
 }
 
 func checkC01(w *World, r *Report) {
-	r.Explanation = "Structural clause of C01 over every module function that can run in consensus context (reachable from InitChain/BeginBlock/DeliverTx/EndBlock/Commit/Info, including go-ethereum's callbacks into the state wrapper): (D-1) no call of a node-local or nondeterministic API (wall clock, random numbers, environment, process, runtime introspection, pointer values, file reads) except one listed construct; (D-2) every `range` over a map is discharged by a recognised order-insensitive idiom — keys collected and sorted before any use, keyed copy into another map, effect executed at most once with a value independent of the iteration — or is a listed exception; the ledger's map-order-exposing iterators have no caller on that path; (D-3) every comparator handed to sort on that path ends in a full-width comparison of the element's unique key, so no tie is left to the sort algorithm (one listed exception); (D-4) no goroutine start, channel operation or select on that path, the asynchronous executor entry points have no caller there, and the executor is created with 0 workers; (D-5) every ledger item encoder reaches only encoding/json or protobuf marshalling, the protobuf messages have no map-typed field, and no floating-point value occurs on that path; (D-6) the write-back discipline (see the D-6 obligations): an overlay object mutated in place is marked in its overlay before the function that obtained it returns successfully; (D-7) node-local mempool traffic cannot reach consensus state inside the ledger: overlay isolation and no item object shared between the overlays (C18 L-1)."
+	r.Explanation = "Structural clause of C01 over every module function that can run in consensus context (reachable from InitChain/BeginBlock/DeliverTx/EndBlock/Commit/Info, including go-ethereum's callbacks into the state wrapper): (D-1) no call of a node-local or nondeterministic API (wall clock, random numbers, environment, process, runtime introspection, pointer values, file reads) except one listed construct; (D-2) every `range` over a map is discharged by a recognised order-insensitive idiom — keys collected and sorted before any use, keyed copy into another map, effect executed at most once with a value independent of the iteration — or is a listed exception; the ledger's map-order-exposing iterators have no caller on that path; (D-3) every comparator handed to sort on that path ends in a full-width comparison of the element's unique key, so no tie is left to the sort algorithm (one listed exception); (D-4) no goroutine start, channel operation or select on that path, the asynchronous executor entry points have no caller there, and the executor is created with 0 workers; (D-5) every ledger item encoder reaches only encoding/json or protobuf marshalling, the protobuf messages have no map-typed field, and no floating-point value occurs on that path; (D-6) the write-back discipline (see the D-6 obligations): an overlay object mutated in place is marked in its overlay before the function that obtained it returns successfully; (D-7) node-local mempool traffic cannot reach consensus state inside the ledger: overlay isolation and no item object shared between the overlays (C18 L-1); (D-8) the age of the process is node-local: every in-memory controller field that block execution writes, or whose pointee it mutates in place, is block-scoped, rebuilt from committed state at start-up or handed over at Commit (C07 R-1), so that a restarted replica and one that was never restarted answer alike."
 	r.NotCovered = "nondeterminism inside dependencies (iavl, go-ethereum, encoding/json, protobuf); data races; different Go releases on different replicas (sort algorithm on non-total comparators, map iteration is never relied on); equality of the values computed."
 	x := NewExecCtx(w)
 	fns := consFuncs(x)
@@ -61,12 +61,22 @@ func checkC01(w *World, r *Report) {
 	d5(w, r, x, fns)
 	d6(w, r, x, fns)
 	d6b(w, r)
+	d6c(w, r, x, fns)
+	d6d(w, r, fns)
 	// D-7: CheckTx traffic is node-local; inside the ledger it must not reach what
 	// consensus reads or commits (C18 L-1, incl. object sharing between overlays)
 	if r.importObs(w, func(t *Report) { l1(w, t) }, "L-1", "D-7") == 0 {
 		r.Undecided("D-7", "ledger-isolation", "the ledger's overlay semantics could not be evaluated")
 	}
 	r.Floor("D-7", 2, "ledger isolation")
+	// D-8: "independently started replicas": the process's age is node-local. Every
+	// in-memory controller field that block execution writes (or whose pointee it
+	// mutates) is block-scoped, rebuilt from committed state at start-up, or handed
+	// over at Commit (C07 R-1) — otherwise a replica that was restarted answers
+	// differently from one that was not
+	if r.importObs(w, func(t *Report) { r1(w, t, x); startupLag(w, t, "R-1") }, "R-1", "D-8") < 12 {
+		r.Undecided("D-8", "process-age", "fewer than 12 controller fields written during block execution were found")
+	}
 	r.Floor("D-1", 1, "API calls (positive control + exception)")
 	r.Floor("D-2", 4, "map ranges + iterator who-may-call")
 	r.Floor("D-3", 3, "comparators")
